@@ -442,6 +442,13 @@ class MarkdownNormalizer(Renderer):
                 rendered_item = self.render(child)
                 result.append(rendered_item)
 
+        if old_tight and self._skip_next_blank_line and result and result[-1].endswith("\n\n"):
+            # This (loose) list ends with a heading and sits inside an item of a tight list:
+            # the blank line the heading wrote after itself would separate the enclosing
+            # item from the next one and make that list loose.
+            result[-1] = result[-1][:-1]
+            self._skip_next_blank_line = False
+
         # Restore the previous list's tightness (for nested lists)
         self._current_list_tight = old_tight
         self._prefix = self._second_prefix
@@ -475,6 +482,28 @@ class MarkdownNormalizer(Renderer):
 
         return result
 
+    def _render_quote_body(self, element: block.Quote) -> str:
+        """Render the blocks of a block quote or alert, each line carrying the `> ` marker."""
+        # A quote is a block context of its own: the tightness of a list around it does
+        # not apply to the blocks inside it.
+        old_tight = self._current_list_tight
+        self._current_list_tight = False
+        with self.container("> ", "> "):
+            result = self.render_children(element).rstrip("\n")
+            last_line_start = result.rfind("\n") + 1
+            if (
+                self._skip_next_blank_line
+                and last_line_start
+                and not result[last_line_start:].strip(" >")
+            ):
+                # The quote ends with a heading: the separator line the heading wrote after
+                # itself has nothing to separate here. Drop it, and let whatever blank line
+                # follows the quote be written normally.
+                result = result[: last_line_start - 1]
+                self._skip_next_blank_line = False
+        self._current_list_tight = old_tight
+        return result
+
     def render_quote(self, element: block.Quote) -> str:
         # Reset the skip flag since we're not rendering a blank line
         self._skip_next_blank_line = False
@@ -482,8 +511,7 @@ class MarkdownNormalizer(Renderer):
         # Nothing precedes the first block inside the quote, so a list that opens it
         # needs no separator line before its first item.
         self._suppress_item_break = True
-        with self.container("> ", "> "):
-            result = self.render_children(element).rstrip("\n")
+        result = self._render_quote_body(element)
         self._prefix = self._second_prefix
         # After rendering a quote block, don't suppress the next item break
         # This ensures proper spacing after list items with quote blocks
@@ -562,14 +590,19 @@ class MarkdownNormalizer(Renderer):
         children_content = self.render_children(element)
         self._in_heading = False
         self._current_inline_text = ""
-        # If heading ends with hard break, don't add extra newline
-        if children_content.endswith("\\"):
+        # If heading ends with hard break, don't add extra newline. The same goes for a
+        # heading directly inside an item of a tight list: a blank line after it would
+        # turn the list into a loose one.
+        if children_content.endswith("\\") or self._current_list_tight:
             result = f"{self._prefix}{'#' * element.level} {children_content}\n"
             self._prefix = self._second_prefix
             # Don't skip next blank line or suppress item break for hard breaks
             return result
         else:
-            result = f"{self._prefix}{'#' * element.level} {children_content}\n\n"
+            # The blank line after the heading belongs to the enclosing container: inside a
+            # block quote it needs the quote marker, or it would end the quote.
+            blank_line = f"{self._second_prefix.rstrip()}\n" if self._second_prefix.strip() else "\n"
+            result = f"{self._prefix}{'#' * element.level} {children_content}\n{blank_line}"
             self._prefix = self._second_prefix
             # Skip the next blank line since we already added one
             self._skip_next_blank_line = True
@@ -812,8 +845,7 @@ class MarkdownNormalizer(Renderer):
         alert_type: str = element.alert_type  # pyright: ignore
         alert_header = f"> [!{alert_type}]\n"
 
-        with self.container("> ", "> "):
-            result = self.render_children(element).rstrip("\n")
+        result = self._render_quote_body(element)
 
         self._prefix = self._second_prefix
         # After rendering an alert block, don't suppress the next item break
